@@ -396,36 +396,6 @@ impl<T> DataReaderEntity<T> {
                     return Ok(AddChangeResult::NotAdded);
                 }
             }
-
-            match self
-                .instance_ownership
-                .iter_mut()
-                .find(|x| x.instance_handle == sample.instance_handle)
-            {
-                Some(x) => {
-                    x.owner_handle = sample.writer_guid;
-                }
-                None => self.instance_ownership.push(InstanceOwnership {
-                    instance_handle: sample.instance_handle,
-                    owner_handle: sample.writer_guid,
-                    last_received_time: reception_timestamp,
-                }),
-            }
-        }
-
-        if matches!(
-            sample.kind,
-            ChangeKind::NotAliveDisposed
-                | ChangeKind::NotAliveUnregistered
-                | ChangeKind::NotAliveDisposedUnregistered
-        ) {
-            if let Some(i) = self
-                .instance_ownership
-                .iter()
-                .position(|x| x.instance_handle == sample.instance_handle)
-            {
-                self.instance_ownership.remove(i);
-            }
         }
 
         let is_sample_of_interest_based_on_time = {
@@ -512,6 +482,41 @@ impl<T> DataReaderEntity<T> {
                 sample.instance_handle,
                 SampleRejectedStatusKind::RejectedBySamplesPerInstanceLimit,
             ));
+        }
+
+        // The change is going to be stored: only now does it take part in the ownership of its
+        // instance. A change refused by the time-based filter or by the resource limits must
+        // neither take the instance over nor release it.
+        if self.qos.ownership.kind == OwnershipQosPolicyKind::Exclusive {
+            match self
+                .instance_ownership
+                .iter_mut()
+                .find(|x| x.instance_handle == sample.instance_handle)
+            {
+                Some(x) => {
+                    x.owner_handle = sample.writer_guid;
+                }
+                None => self.instance_ownership.push(InstanceOwnership {
+                    instance_handle: sample.instance_handle,
+                    owner_handle: sample.writer_guid,
+                    last_received_time: reception_timestamp,
+                }),
+            }
+        }
+
+        if matches!(
+            sample.kind,
+            ChangeKind::NotAliveDisposed
+                | ChangeKind::NotAliveUnregistered
+                | ChangeKind::NotAliveDisposedUnregistered
+        ) {
+            if let Some(i) = self
+                .instance_ownership
+                .iter()
+                .position(|x| x.instance_handle == sample.instance_handle)
+            {
+                self.instance_ownership.remove(i);
+            }
         }
 
         if replaces_oldest_sample {
